@@ -18,6 +18,13 @@ Definition crc_update (s : N) (l : list N) : N := fold_left crc_byte l s.
 (* crc32_calc: value_ = 0; process_bytes(p,n) = crc32(value_,p,n) (skipped for n = 0); checksum() *)
 Definition crc32 (l : list N) : N := N.lxor (crc_update M32 l) M32.
 
+(* the class cppcms::impl::crc32_calc (private/crc32.h), which is all that save_to_file and read_from_file use:
+   value_ = 0;  process_bytes(p,n): if(n==0) return; value_ = crc32(value_,p,n);  checksum(): value_.
+   zlib's crc32(crc,buf,len) continues a finished CRC: it undoes the final xor, feeds the bytes, and xors again. *)
+Definition zcrc (v : N) (l : list N) : N := N.lxor (crc_update (N.lxor v M32) l) M32.
+Definition process_bytes (v : N) (l : list N) : N := match l with [] => v | _ => zcrc v l end.
+Definition crc32_calc (chunks : list (list N)) : N := fold_left process_bytes chunks 0.
+
 (* byte-at-a-time table form (the bundled Crc32_ComputeBuf of private/crc32.h) *)
 Definition crc_table_entry (i : N) : N := crc_bits8 i.
 Definition crc_byte_tab (s b : N) : N := N.lxor (s / 256) (crc_table_entry (N.lxor s b mod 256)).
